@@ -21,9 +21,13 @@ T = {
     "T-schema": "declared field kinds of Sensor/ChildSensor (contracts/state.py); stores of other kinds are undecided, not proved",
 }
 
+_GW = ["T-engine", "T-smt", "T-int", "T-str", "T-hex", "T-vol", "T-aw", "T-dict", "T-schema", "T-spec", "T-crc"]
 PER_PROP = {
+    "C01": _GW, "C04": _GW, "C05": _GW + ["T-time"], "C07": _GW, "C08": _GW, "C10": _GW, "C14": _GW + ["T-json", "T-pickle", "T-fs"],
+    "C02": ["T-engine", "T-smt", "T-int", "T-str", "T-spec"],
+    "C09": ["T-engine", "T-smt", "T-int", "T-hex", "T-crc", "T-ihex", "T-spec"],
     "C03": ["T-engine", "T-smt", "T-int", "T-vol", "T-aw", "T-str", "T-hex", "T-spec"],
-    "C06": ["T-engine", "T-smt", "T-int", "T-dict", "T-schema", "T-json", "T-pickle"],
+    "C06": _GW + ["T-json", "T-pickle"],
 }
 
 
